@@ -63,6 +63,142 @@ func init() {
 		delete(st.mutexes, p.Obj)
 		return retExit(st, nil)
 	}
+	stubs["(*sync.Mutex).TryLock"] = func(e *Engine, st *State, fr *Frame, fn *ssa.Function, args []Value, pos token.Pos) []exit {
+		p := args[0].(PtrV)
+		if st.mutexes[p.Obj] {
+			return retExit(st, e.tc.False)
+		}
+		st.mutexes[p.Obj] = true
+		return retExit(st, e.tc.True)
+	}
+	// sync.Once: the done flag lives in the struct's first field
+	stubs["(*sync.Once).Do"] = func(e *Engine, st *State, fr *Frame, fn *ssa.Function, args []Value, pos token.Pos) []exit {
+		p := args[0].(PtrV)
+		flag := PtrV{Obj: p.Obj, Path: appendPath(p.Path, PathElem{I: 0})}
+		if _, done := e.load(st, flag).(*Term); done {
+			return retExit(st, nil)
+		}
+		e.store(st, flag, e.tc.True)
+		var out []exit
+		for _, r := range e.callValue(st, fr, args[1], nil, nil, nil) {
+			if r.kind == exitPanic {
+				out = append(out, r)
+				continue
+			}
+			out = append(out, exit{st: r.st, kind: exitReturn})
+		}
+		return out
+	}
+	// sync.Pool: the pooled items live in the struct's `local` field; Get may return any pooled item or a
+	// new one (both are explored: the runtime is free to drop pooled items at any time)
+	poolField := func(e *Engine, p PtrV, name string) PtrV {
+		pt := e.prog.ImportedPackage("sync").Pkg.Scope().Lookup("Pool").Type().Underlying().(*types.Struct)
+		for i := 0; i < pt.NumFields(); i++ {
+			if pt.Field(i).Name() == name {
+				return PtrV{Obj: p.Obj, Path: appendPath(p.Path, PathElem{I: i})}
+			}
+		}
+		panic(unsupported("sync.Pool field " + name))
+	}
+	stubs["(*sync.Pool).Put"] = func(e *Engine, st *State, fr *Frame, fn *ssa.Function, args []Value, pos token.Pos) []exit {
+		p := args[0].(PtrV)
+		f := poolField(e, p, "local")
+		items, _ := e.load(st, f).(TupleV)
+		e.store(st, f, append(append(TupleV{}, items...), args[1]))
+		return retExit(st, nil)
+	}
+	stubs["(*sync.Pool).Get"] = func(e *Engine, st *State, fr *Frame, fn *ssa.Function, args []Value, pos token.Pos) []exit {
+		p := args[0].(PtrV)
+		f := poolField(e, p, "local")
+		items, _ := e.load(st, f).(TupleV)
+		var out []exit
+		fresh := st
+		if len(items) > 0 {
+			s2 := st.fork()
+			e.stats.States++
+			e.store(s2, f, append(TupleV{}, items[:len(items)-1]...))
+			out = append(out, exit{st: s2, kind: exitReturn, val: items[len(items)-1]})
+		}
+		nf := e.load(fresh, poolField(e, p, "New"))
+		if fv, ok := nf.(FuncV); ok && (fv.Fn != nil) {
+			for _, r := range e.callValue(fresh, fr, fv, nil, nil, nil) {
+				out = append(out, r)
+			}
+		} else {
+			out = append(out, exit{st: fresh, kind: exitReturn, val: IfaceV{}})
+		}
+		return out
+	}
+	// sync.Map: an engine map kept in the struct's `dirty` field (keys compared as interface values)
+	mapField := func(e *Engine, st *State, p PtrV) (PtrV, MapV) {
+		mt := e.prog.ImportedPackage("sync").Pkg.Scope().Lookup("Map").Type().Underlying().(*types.Struct)
+		for i := 0; i < mt.NumFields(); i++ {
+			if mt.Field(i).Name() == "dirty" {
+				f := PtrV{Obj: p.Obj, Path: appendPath(p.Path, PathElem{I: i})}
+				m, _ := e.load(st, f).(MapV)
+				if m.Obj == 0 {
+					any := types.NewInterfaceType(nil, nil)
+					m = MapV{Obj: e.alloc(st, &MapObj{KeyT: any, ValT: any})}
+					e.store(st, f, m)
+				}
+				return f, m
+			}
+		}
+		panic(unsupported("sync.Map layout"))
+	}
+	stubs["(*sync.Map).Store"] = func(e *Engine, st *State, fr *Frame, fn *ssa.Function, args []Value, pos token.Pos) []exit {
+		_, m := mapField(e, st, args[0].(PtrV))
+		e.mapUpdate(st, m, args[1], args[2])
+		return retExit(st, nil)
+	}
+	stubs["(*sync.Map).Load"] = func(e *Engine, st *State, fr *Frame, fn *ssa.Function, args []Value, pos token.Pos) []exit {
+		_, m := mapField(e, st, args[0].(PtrV))
+		var out []exit
+		alts := e.mapLookupAlts(st, m, args[1], types.NewInterfaceType(nil, nil))
+		for i, a := range alts {
+			s2 := st
+			if i < len(alts)-1 {
+				s2 = st.fork()
+				e.stats.States++
+			}
+			if !a.cond.IsTrue() {
+				if !e.feasible(s2, a.cond, "sync.Map.Load") {
+					continue
+				}
+				s2.assume(a.cond)
+			}
+			out = append(out, exit{st: s2, kind: exitReturn, val: TupleV{a.val, a.found}})
+		}
+		return out
+	}
+	stubs["(*sync.Map).LoadOrStore"] = func(e *Engine, st *State, fr *Frame, fn *ssa.Function, args []Value, pos token.Pos) []exit {
+		_, m := mapField(e, st, args[0].(PtrV))
+		var out []exit
+		alts := e.mapLookupAlts(st, m, args[1], types.NewInterfaceType(nil, nil))
+		for i, a := range alts {
+			s2 := st
+			if i < len(alts)-1 {
+				s2 = st.fork()
+				e.stats.States++
+			}
+			if !a.cond.IsTrue() {
+				if !e.feasible(s2, a.cond, "sync.Map.LoadOrStore") {
+					continue
+				}
+				s2.assume(a.cond)
+			}
+			yes, no := e.forkOn(s2, a.found, "sync.Map.LoadOrStore found")
+			if yes != nil {
+				out = append(out, exit{st: yes, kind: exitReturn, val: TupleV{a.val, e.tc.True}})
+			}
+			if no != nil {
+				_, m2 := mapField(e, no, args[0].(PtrV))
+				e.mapUpdate(no, m2, args[1], args[2])
+				out = append(out, exit{st: no, kind: exitReturn, val: TupleV{args[2], e.tc.False}})
+			}
+		}
+		return out
+	}
 	// internal/bytealg: assembly routines, given their documented semantics on concrete or symbolic bytes
 	indexByte := func(e *Engine, b []*Term, c *Term) *Term {
 		// first index i with b[i] == c, else -1
